@@ -319,7 +319,8 @@ func c11NoSharedWrites(c *Ctx) {
 		return
 	}
 	mr := modref.New([]*ssa.Function{su}, c.P.IsRepoFunc, func(caller *ssa.Function, call ssa.CallInstruction, callee *ssa.Function) bool {
-		return caller == su && staleGuarded(call)
+		_ = caller
+		return staleGuarded(call)
 	})
 	r.Analysed["search_reach_set"] = funcKeys(mr.Reach)
 	r.Floor("O-5", "functions reachable from SearchUniversal", len(mr.Reach), 60)
